@@ -19,8 +19,10 @@ import (
 
 	"github.com/regclient/regclient"
 	"github.com/regclient/regclient/scheme"
+	"github.com/regclient/regclient/scheme/reg"
 	"github.com/regclient/regclient/types"
 	"github.com/regclient/regclient/types/descriptor"
+	"github.com/regclient/regclient/types/manifest"
 	"github.com/regclient/regclient/types/ref"
 	"github.com/regclient/regclient/zz_verif/audit"
 	"github.com/regclient/regclient/zz_verif/imggen"
@@ -81,18 +83,24 @@ type Case struct {
 	Procs       int           `json:"procs"`
 	TgtByDigest bool          `json:"tgt_by_digest"`
 	SrcForm     string        `json:"src_form,omitempty"` // how the source is named: "" = tag | digest | tag+digest
+	// client built with reg.WithCache (regctl always, regsync by default)
+	Cache bool `json:"cache,omitempty"`
+	// what the same client did before the copy: "" nothing | inspect (get the source manifest and, for an index,
+	// each child by digest) | prior-copy (copied the image to a third repository of the source registry)
+	Warm string `json:"warm,omitempty"`
 }
 
 // DelayTable are the latencies a plan chooses from.
 var DelayTable = []time.Duration{0, 50 * time.Microsecond, 300 * time.Microsecond, 2 * time.Millisecond}
 
 const (
-	HostA   = "a.example.test"
-	HostB   = "b.example.test"
-	HostExt = "ext.example.test"
-	RepoSrc = "proj/src"
-	RepoTgt = "proj/tgt"
-	SrcTag  = "v1"
+	HostA     = "a.example.test"
+	HostB     = "b.example.test"
+	HostExt   = "ext.example.test"
+	RepoSrc   = "proj/src"
+	RepoTgt   = "proj/tgt"
+	RepoThird = "proj/third" // where a warm-up copy goes (source registry)
+	SrcTag    = "v1"
 )
 
 // GenOptions restrict the generator for a particular property.
@@ -183,7 +191,24 @@ func Gen(t *rapid.T, o GenOptions) Case {
 	c.Procs = rapid.SampledFrom([]int{1, 4, 16}).Draw(t, "procs")
 	c.TgtByDigest = rapid.IntRange(0, 7).Draw(t, "bydigest") == 0
 	c.SrcForm = rapid.SampledFrom([]string{"", "", "", "", "digest", "tag+digest"}).Draw(t, "srcform")
+	c.Cache = rapid.IntRange(0, 2).Draw(t, "cache") == 0
+	c.Warm = rapid.SampledFrom([]string{"", "", "", "inspect", "prior-copy"}).Draw(t, "warm")
 	return c
+}
+
+// ClientClasses labels the client-side dimensions of a case.
+func (c Case) ClientClasses() []string {
+	var out []string
+	if c.Cache {
+		out = append(out, "client:cache")
+	}
+	if c.Warm != "" {
+		out = append(out, "client:warm-"+c.Warm)
+	}
+	if c.Cache && c.Warm != "" {
+		out = append(out, "client:cache+warm")
+	}
+	return out
 }
 
 // Endpoint is one side of the copy.
@@ -219,6 +244,8 @@ type Env struct {
 	tmp        string
 	prevProcs  int
 	cbCalls    atomic.Int64
+	// requests the warm-up sent before the copy (fault positions and request counts are relative to it)
+	WarmRequests int
 }
 
 var staleBody = []byte(`{"schemaVersion":2,"mediaType":"application/vnd.oci.image.manifest.v1+json","config":{"mediaType":"application/vnd.oci.empty.v1+json","digest":"sha256:44136fa355b3678a1146ad16f7e8649e94fb4fc21fe77e8310c060f61caaff8a","size":2,"data":"e30="},"layers":[],"annotations":{"stale":"yes"}}`)
@@ -372,9 +399,45 @@ func Setup(c Case) (*Env, error) {
 			e.PreTag = e.RootDig
 		}
 	}
-	e.RC = rcutil.New(e.M, rcutil.Conf{})
+	conf := rcutil.Conf{}
+	if c.Cache {
+		conf.RegOpts = append(conf.RegOpts, reg.WithCache(5*time.Minute, 500))
+	}
+	e.RC = rcutil.New(e.M, conf)
 	e.prevProcs = runtime.GOMAXPROCS(c.Procs)
+	e.warm()
+	e.WarmRequests = e.M.Requests()
 	return e, nil
+}
+
+// warm lets the client under test do what a caller may have done before the copy (errors are ignored,
+// only the client's state matters). It runs before any fault is armed.
+func (e *Env) warm() {
+	ctx, cancel := context.WithTimeout(context.Background(), 30*time.Second)
+	defer cancel()
+	switch e.C.Warm {
+	case "inspect":
+		m, err := e.RC.ManifestGet(ctx, e.SrcRef)
+		if err != nil {
+			return
+		}
+		if mi, ok := m.(manifest.Indexer); ok {
+			if dl, err := mi.GetManifestList(); err == nil {
+				for _, d := range dl {
+					_, _ = e.RC.ManifestGet(ctx, e.SrcRef.SetDigest(d.Digest.String()))
+				}
+			}
+		}
+	case "prior-copy":
+		if e.Src.Kind != "reg" {
+			return
+		}
+		r3, err := ref.New(e.Src.Host.Name + "/" + RepoThird + ":" + SrcTag)
+		if err != nil {
+			return
+		}
+		_ = e.RC.ImageCopy(ctx, e.SrcRef, r3, e.ImageOpts()...)
+	}
 }
 
 // Close releases scratch space.
